@@ -255,6 +255,13 @@ def leafUnsupported (st : State) (t : Table) (l : Leaf) : Bool :=
       | none => true)
    | .loc => false)
 
+/-- the reference regex engine is quadratic in the pattern length on repetitive texts: patterns beyond 120
+    characters are outside the compared input class -/
+def longRegex (st : State) (text : String) : Bool :=
+  match parseRequest st.schema { optimize := false, q := Quirks.none } text with
+  | .ok req => (requestLeaves req).any fun l => l.rx.isSome && l.sval.length > 120
+  | .error _ => false
+
 def handleQuery (st : State) (j : Json) : Json :=
   let id := jNat j "id"
   let text := jStr j "text"
@@ -271,6 +278,7 @@ def handleQuery (st : State) (j : Json) : Json :=
       if t.passthrough || t.virt == .columns then Json.mkObj (base ++ [("parse", .str "unsupported"), ("why", .str "table not modelled")])
       else if !req.waitTrigger.isEmpty || !req.waitCondition.isEmpty then Json.mkObj (base ++ [("parse", .str "unsupported"), ("why", .str "wait headers")])
       else if (requestLeaves req).any (leafUnsupported st t) then Json.mkObj (base ++ [("parse", .str "unsupported"), ("why", .str "filter column not modelled")])
+      else if longRegex st text then Json.mkObj (base ++ [("parse", .str "unsupported"), ("why", .str "regular expression too long for the reference engine")])
       else
       match usesUnsupportedColumn st t req with
       | some c => Json.mkObj (base ++ [("parse", .str "unsupported"), ("why", .str s!"column {c} not modelled")])
